@@ -148,6 +148,7 @@ func runC10(c *Ctx, tier string) {
 	runPartialRecombinationNoPanic(c, "C10-P3")
 	runSpillKeyOrderTotal(c, "C10-K2")
 	runInputSortDirFirstKeyOnly(c, "C10-I1")
+	runMathReducerPromotion(c, "C10-M2")
 }
 
 func recvType(cc *ssa.CallCommon) types.Type {
